@@ -938,9 +938,11 @@ func (c *Compiler) linkRecursiveCode(ctx *compileContext) {
 		lastCode.ElemIdx = lastCode.Idx + uintptrSize
 		lastCode.Length = lastCode.Idx + 2*uintptrSize
 
-		// extend length to alloc slot for elemIdx + length
-		curTotalLength := uintptr(recursive.TotalLength()) + 3
-		nextTotalLength := uintptr(totalLength) + 3
+		// extend length to alloc slot for elemIdx + length.
+		// lastCode uses the slots totalLength+1 .. totalLength+3 ( totalLength does not
+		// count the end code ), so a frame is totalLength+4 slots long.
+		curTotalLength := uintptr(recursive.TotalLength()) + 4
+		nextTotalLength := uintptr(totalLength) + 4
 
 		compiled := recursive.Jmp
 		compiled.Code = code
